@@ -186,9 +186,10 @@ func clone(v [][]byte) [][]byte {
 }
 
 type vector struct {
-	args [][]byte
-	base string // command name of the template
-	mut  string // mutation description (histogram)
+	group [][][]byte // replay files only: commands sent in one TCP write
+	args  [][]byte
+	base  string // command name of the template
+	mut   string // mutation description (histogram)
 }
 
 func pickVal(r *hx.Rng) []byte {
@@ -672,6 +673,134 @@ func liveCollectionBig() []vector {
 	// clean up
 	for _, c := range [][]string{{"hclear", "vns:t:hlive"}, {"sclear", "vns:t:slive"}, {"zclear", "vns:t:zlive"}, {"lclear", "vns:t:llive"}, {"del", "vns:t:plive"}} {
 		out = append(out, vector{args: bb(c), base: c[0], mut: "livebig"})
+	}
+	return out
+}
+
+// manyCollections: more large collections than the top-N heap of large collections tracks (100 of >= 32 elements,
+// metric.CollSizeHeap, updated by every list/set/zset/hash write in the apply loop), then a newer larger one, then the
+// smallest tracked one and the newest shrink below the threshold (clear / trim / pops / removes).
+func manyCollections() []vector {
+	var out []vector
+	mk := func(mut string, a ...string) { out = append(out, vector{args: bb(a), base: a[0], mut: mut}) }
+	elems := func(n int, score bool) []string {
+		var e []string
+		for i := 0; i < n; i++ {
+			if score {
+				e = append(e, fmt.Sprint(i))
+			}
+			e = append(e, fmt.Sprintf("e%d", i))
+		}
+		return e
+	}
+	type fam struct {
+		add, clear  string
+		score, pair bool
+		shrink      func(k string) []string
+	}
+	fams := []fam{
+		{"rpush", "lclear", false, false, func(k string) []string { return []string{"ltrim", k, "0", "3"} }},
+		{"sadd", "sclear", false, false, func(k string) []string { return append([]string{"srem", k}, elems(60, false)...) }},
+		{"zadd", "zclear", true, false, func(k string) []string { return []string{"zremrangebyrank", k, "0", "-5"} }},
+		{"hmset", "hclear", false, true, func(k string) []string { return append([]string{"hdel", k}, elems(60, false)...) }},
+	}
+	for fi, f := range fams {
+		key := func(i int) string { return fmt.Sprintf("vns:t:mc%d_%d", fi, i) }
+		fill := func(i, n int) {
+			a := []string{f.add, key(i)}
+			if f.pair {
+				for _, e := range elems(n, false) {
+					a = append(a, e, "v")
+				}
+			} else {
+				a = append(a, elems(n, f.score)...)
+			}
+			mk("manycoll", a...)
+		}
+		// 100 tracked collections, the smallest is number 0
+		for i := 0; i < 100; i++ {
+			fill(i, 40+i%7+boolInt(i > 0))
+		}
+		// newer ones that are larger than the smallest tracked
+		fill(100, 50)
+		fill(101, 51)
+		// the old smallest and the newest shrink below the threshold, in several ways
+		mk("manycoll", f.clear, key(0))
+		mk("manycoll", f.shrink(key(100))...)
+		mk("manycoll", f.clear, key(100))
+		mk("manycoll", f.shrink(key(1))...)
+		mk("manycoll", f.clear, key(101))
+		fill(102, 45)
+		mk("manycoll", f.clear, key(2))
+		mk("manycoll", f.clear, key(102))
+		// clean up
+		for i := 0; i <= 102; i++ {
+			mk("manycoll", f.clear, key(i))
+		}
+	}
+	return out
+}
+
+func boolInt(b bool) int {
+	if b {
+		return 1
+	}
+	return 0
+}
+
+// bigListRegrow: a list of more than 5000+ elements is trimmed to a few (the branches of ltrim that remove a whole
+// range with one DeleteRange), then grows back over the old positions; every reply and the dumps around an error count.
+func bigListRegrow() []vector {
+	var out []vector
+	mk := func(a ...string) { out = append(out, vector{args: bb(a), base: a[0], mut: "biglist"}) }
+	push := func(cmd, k string, from, n int) {
+		a := []string{cmd, k}
+		for i := from; i < from+n; i++ {
+			a = append(a, fmt.Sprintf("e%d", i))
+		}
+		mk(a...)
+	}
+	for vi, trim := range [][]string{{"0", "9"}, {"-10", "-1"}, {"2995", "3004"}, {"0", "0"}} {
+		k := fmt.Sprintf("vns:t:bigl%d", vi)
+		push("rpush", k, 0, 5000)
+		push("rpush", k, 5000, 1000)
+		mk("llen", k)
+		mk("ltrim", k, trim[0], trim[1])
+		mk("llen", k)
+		push("rpush", k, 6000, 5000)
+		push("rpush", k, 11000, 1000)
+		mk("llen", k)
+		push("lpush", k, 12000, 5000)
+		push("lpush", k, 17000, 1000)
+		mk("llen", k)
+		mk("lrange", k, "0", "3")
+		mk("lindex", k, "-1")
+		mk("lclear", k)
+	}
+	return out
+}
+
+// pipelineGroups: several commands in ONE TCP write (the server sees them as a pipeline): every registered name and
+// the pipeline-internal names plset / plget as first, middle and last command
+func pipelineGroups(names []string) [][][][]byte {
+	var out [][][][]byte
+	set := func(i int) [][]byte { return bb([]string{"set", fmt.Sprintf("vns:t:pg%d", i), "1"}) }
+	get := func(i int) [][]byte { return bb([]string{"get", fmt.Sprintf("vns:t:pg%d", i)}) }
+	for _, special := range [][]string{
+		{"plset", "vns:t:pa", "1", "vns:t:pb", "2"}, {"plget", "vns:t:pa", "vns:t:pb"}, {"plset"}, {"plget"}, {"PLSET", "vns:t:pa", "1"},
+		{"plset", "vns:t:pa"}, {"ping"}, {"info"}, {"auth", "x"}, {""},
+	} {
+		sp := bb(special)
+		out = append(out, [][][]byte{sp, set(1)}, [][][]byte{sp, get(1)}, [][][]byte{set(1), sp, set(2)}, [][][]byte{get(1), sp, get(2)},
+			[][][]byte{set(1), set(2), sp}, [][][]byte{sp, sp}, [][][]byte{set(1), sp})
+	}
+	for _, n := range names {
+		tp := templates[n]
+		if len(tp) == 0 {
+			tp = genericTemplates(n)
+		}
+		t := bb(tp[0])
+		out = append(out, [][][]byte{t, set(3)}, [][][]byte{set(3), t}, [][][]byte{set(3), t, get(3)})
 	}
 	return out
 }
